@@ -125,7 +125,7 @@ def expand_plan(run_space: dict) -> list:
     return out
 
 
-def launch_case(g, fail_at: Optional[int] = None, n_runs: Optional[int] = None) -> dict:
+def launch_case(g, fail_at: Optional[int] = None, n_runs: Optional[int] = None, fail_with: str = "boom") -> dict:
     """(pipeline, run_space) pair: every run gets its own value/factor/fuse from the plan; a VBoom whose fuse
     comes from the run context makes run ``fail_at`` fail."""
     rng = g.rng
@@ -138,7 +138,7 @@ def launch_case(g, fail_at: Optional[int] = None, n_runs: Optional[int] = None) 
     if g.chance(0.5):
         nodes.append({"processor": "VValueProbe", "context_key": rng.choice(["seen", "note2"])})
     boom_pos = len(nodes)
-    nodes.append({"processor": "VBoom"})  # fuse from context
+    nodes.append({"processor": "VBoomExit" if fail_with == "exit" else "VBoom"})  # fuse from context
     if g.chance(0.5):
         nodes.append({"processor": "VAddNote"})
     if g.chance(0.6):
@@ -175,7 +175,7 @@ def launch_case(g, fail_at: Optional[int] = None, n_runs: Optional[int] = None) 
     run_space = {"combine": combine, "max_runs": 1000, "blocks": blocks}
     plan = expand_plan(run_space)
     first_fail = next((i for i, r in enumerate(plan) if r.get("fuse", 0.0) >= 1.0), None)
-    return {"nodes": nodes, "run_space": run_space, "plan": plan, "first_fail": first_fail, "boom_pos": boom_pos, "shape": shape}
+    return {"nodes": nodes, "run_space": run_space, "plan": plan, "first_fail": first_fail, "boom_pos": boom_pos, "shape": shape, "fail_with": fail_with}
 
 
 def run_launch(case: dict, workdir: str, *, trace_mode: str = "file", detail: str = "all", extra_argv: Optional[list] = None,
